@@ -130,6 +130,9 @@ PROGRAMS = {
     "dropper": {"msgs": [M("open_run"), M("null"), M("checkpoint"), M("set", "motor", a="g1"), M("null"), M("wait", a="g1"), M("null"),
                          M("trigger", "det", a="g2"), M("null"), M("wait", a="g2"), M("create", a="primary"), M("read", "det"), M("null"), M("save"),
                          M("close_run"), M("null")]},
+    # ... the toggle made inside the non-resumable section must be in force after the checkpoint that ends the section
+    "nores_rew_ckpt": {"msgs": [M("open_run"), M("checkpoint"), M("clear_checkpoint"), M("rewindable", a="F"), M("checkpoint"), M("null"), M("null"),
+                                M("rewindable", a="T"), M("null"), M("null"), M("close_run")]},
     "openonly": {"msgs": [M("open_run"), M("checkpoint"), M("sleep"), M("null")]},
     # pauses requested by the plan itself (Msg('pause')): resumable, deferred, and in a non-resumable section with the run left open
     "selfpause": {"msgs": [M("open_run"), M("checkpoint"), M("null"), M("pause", a="F"), M("null"), M("checkpoint"), M("pause", a="T"), M("null"),
@@ -480,7 +483,7 @@ def corpus_spec(tier):
     """the list of sweeps that make up the corpus"""
     quick = tier == "quick"
     sweeps = []
-    progs = ["simple", "two", "fin", "move", "mon", "multi", "defer", "norew", "paus", "err", "openonly", "mon_then", "nores_open", "nores_rew", "nores_then_ckpt", "unstage_only", "cfg_late", "multi_close", "amove", "aopen", "aselfpause_nores",
+    progs = ["simple", "two", "fin", "move", "mon", "multi", "defer", "norew", "paus", "err", "openonly", "mon_then", "nores_open", "nores_rew", "nores_rew_ckpt", "nores_then_ckpt", "unstage_only", "cfg_late", "multi_close", "amove", "aopen", "aselfpause_nores",
              "selfpause", "selfpause_nores", "selfpause_nores_fin", "selfdefer_nores", "norew_save"]
     kinds = REQ_KINDS
     if quick:
@@ -524,6 +527,14 @@ def build_corpus(tier, only=None):
             if kind == "suspend":
                 inj.append({"at": p + 2, "kind": "release", "arg": "f1"})
             scs.append(with_inject(db, inj, ["resume"] * 3, f"{kind}@{p}|resume"))
+    # a document consumer (subscribed after the recorder) that fails once on a RunStart / a descriptor / a RunStop: the run has been
+    # opened as far as the other subscribers are concerned and must still get its RunStop (monitored only)
+    for kind in ("start", "descriptor", "stop"):
+        for pn in ("simple", "fin", "multi"):
+            sc0 = base_scenario(pn)
+            sc0["options"]["raising_consumer"] = "doc:" + kind
+            sc0["id"] = f"badconsumer:{pn}|doc:{kind}"
+            scs.append(sc0)
     scs.append(base_scenario("badsave_fin"))       # (uninterrupted only: a rewind would replay the rejected bundle)
     scs += fault_scenarios(tier)
     scs += monitor_scenarios(tier)
@@ -562,7 +573,8 @@ def build_corpus(tier, only=None):
         exp = base.get(key, []) if "|nori" not in r["id"] else base.get(key, [])
         out.append({"id": r["id"], "events": exp + r["events"], "outcomes": r["outcomes"], "final": r["final"],
                     # (device behaviours RE.tla does not model: a signal that calls back at subscribe time, a failing clear_sub)
-                    "conf": r["id"].split("|")[0] not in NOT_CONFORMANCE and not r["id"].startswith("mon|notify") and "clear_sub:raise" not in r["id"]})
+                    "conf": r["id"].split("|")[0] not in NOT_CONFORMANCE and not r["id"].startswith("mon|notify") and "clear_sub:raise" not in r["id"]
+                            and not r["id"].startswith("badconsumer:")})
     return {"traces": out, "wall": time.time() - t0}
 
 
@@ -1005,7 +1017,7 @@ def corruptions(ev):
 # model checking of REMC
 # ---------------------------------------------------------------------------------------------------------------
 MC_BASE = {
-    "RunKeys": {"", "k1", "k2"}, "Streams": {"primary", "interruptions", "mon1"},
+    "RunKeys": {"", "k1", "k2"}, "Streams": {"primary", "baseline", "interruptions", "mon1"},
     "Dets": {"det", "det2", "pdet", "apdet"}, "Motors": {"motor", "amotor"}, "Mons": {"mon1"}, "Pausables": {"pdet", "apdet"}, "Flyers": set(),
     "AsyncDevs": set(),
     "ReadVal": "<- ReadValDef", "DataKeys": "<- DataKeysDef", "FutNames": {"f1", "f2"},
@@ -1027,7 +1039,7 @@ ProgDef == {prog_tla(p)}
 XD == {{"det", "det2", "pdet", "motor", "mon1", "amotor", "apdet"}}
 ReadValDef == [d \\in XD |-> CASE d = "motor" -> "dict:motor,motor_setpoint" [] d = "amotor" -> "dict:amotor,amotor_setpoint" [] OTHER -> "dict:" \\o d]
 DataKeysDef == [d \\in XD |-> CASE d = "motor" -> {{"motor", "motor_setpoint"}} [] d = "amotor" -> {{"amotor", "amotor_setpoint"}} [] OTHER -> {{d}}]
-StreamOrderDef == <<"interruptions", "mon1", "primary">>
+StreamOrderDef == <<"baseline", "interruptions", "mon1", "primary">>
 DevOrderDef == <<"det", "det2", "mon1", "motor", "pdet", "amotor", "apdet">>
 XSus == {{{", ".join('"%s"' % x for x in suspenders)}}}
 SigOfDef == [x \\in XSus |-> IF x = "s1" THEN "sig1" ELSE IF x = "s2" THEN "sig2" ELSE "sig3"]
@@ -1168,6 +1180,8 @@ def check_property(ctx, prop, proj="full", extra_rule=""):
         for tag in tags:
             if (pred(tag, traces[i]["id"]) if prop == "C14" else pred(tag)):
                 s = signature(tag, reqs) + ("~async" if traces[i]["id"].split("|")[0] in ASYNC_PLANS else "")
+                if traces[i]["id"].startswith("badconsumer:"):
+                    s += "~consumer-fails-on-" + traces[i]["id"].split("|doc:")[1]      # the fault that was injected
                 seen_classes.add(sig_class(s))
                 t = traces[i]
                 ctx.violation(s, f"{tag} on implementation trace {t['id']} (outcomes {t['outcomes']})",
